@@ -120,9 +120,9 @@ def op_cms_stream(job):
         x = tuple(x) if isinstance(x, list) else x
         ids.setdefault(x, len(ids) + 1)
         cms.add(x, w) if job.get('via') != 'batch' else cms.batch_add([x], w)
-        qs = [[i, locs(y), int(cms.query(y))] for y, i in ids.items()]
-        qs.append([0, locs(unseen), int(cms.query(unseen))])
-        ev.append({'e': 'update', 'item': ids[x], 'w': int(w), 'locs': locs(x), 'queries': qs, 'rowsums': [int(v) for v in cms.get_matrix().sum(axis=1)]})
+        qs = [[i, int(cms.query(y))] for y, i in ids.items()]
+        qs.append([0, int(cms.query(unseen))])
+        ev.append({'e': 'update', 'item': ids[x], 'w': int(w), 'queries': qs, 'rowsums': [int(v) for v in cms.get_matrix().sum(axis=1)]})
     return ev
 
 
